@@ -14,6 +14,12 @@ with `<ast>` the neutral miniscript AST of Driver/AstParse.lean and `<k>` a key 
                                                    TrSpendInfo::from_tr, real tagged SHA-256); `<root> -> <outkey>`
                                                    is the elliptic-curve tweak done by rust-bitcoin (the only oracle);
                                                    answer: p2tr(outkey) if the roots agree, `ROOT:<model root>` otherwise
+  C build <desc>                                   OK | ERR: would the constructor (`Descriptor::new_*` after `from_ast`
+                                                   on every node) accept this shape over the `D key` table keys?  The model
+                                                   is C12's entry-point model (Model/Validate.lean `accepts … .wrapper`,
+                                                   `keyOnlyAccepts`, leaves through `.trNew`), so a false rejection is a
+                                                   correspondence failure instead of a silently shrinking input domain
+  J buildexpect <desc> <accept|reject> <OK|ERR>    directed expectation stated by the harness
   J addrspec <type> <net> <hex data> <address>     the library's `Address::to_string()` is the specification's address
                                                    of the output (Spec/Address.lean) AND decodes (Lean Base58Check /
                                                    Bech32(m) decoder) to the expected network class / hrp and payload
@@ -40,6 +46,7 @@ normal indices), `PANIC` for an `unreachable!()` arm.
 import MsVerif.Driver.OpsMs
 import MsVerif.Model.Descriptor
 import MsVerif.Spec.Bip341
+import MsVerif.Driver.OpsValidate
 
 namespace MsVerif.Driver.DescOps
 open MsVerif MsVerif.Driver MsVerif.Desc MsVerif.Keys MsVerif.Bip32 MsVerif.Outputs
@@ -112,6 +119,18 @@ def isTr : Desc → Bool
 def hexOrErr : Option Bytes → String
   | some b => Hash.toHexW b
   | none => "ERR"
+
+/-- the constructor of the harness (`ast::to_ms` = `from_ast` bottom-up, then `Descriptor::new_*`) -/
+def buildAccepts (t : Tables) : Desc → Bool
+  | .bare ms => accepts t.keyEnv (Val.keyInfoOf t) .bare .wrapper ms
+  | .wsh ms | .sh (.wsh ms) => accepts t.keyEnv (Val.keyInfoOf t) .segwitv0 .wrapper ms
+  | .sh (.ms ms) => accepts t.keyEnv (Val.keyInfoOf t) .legacy .wrapper ms
+  | .pkh k => keyOnlyAccepts (Val.keyInfoOf t) .pkh k
+  | .wpkh k => keyOnlyAccepts (Val.keyInfoOf t) .wpkh k
+  | .sh (.wpkh k) => keyOnlyAccepts (Val.keyInfoOf t) .shWpkh k
+  | .tr ik leaves =>
+    keyOnlyAccepts (Val.keyInfoOf t) .tr ik
+      && leaves.all (fun l => decide (l.1 ≤ 128) && accepts t.keyEnv (Val.keyInfoOf t) .tap .trNew l.2)
 
 def parseNet : String → Option Network
   | "bitcoin" => some .bitcoin | "testnet" => some .testnet | "testnet4" => some .testnet4
@@ -277,6 +296,12 @@ def opsDesc (t : Tables) (kind op : String) (args : List String) : Option String
       match d.address P .bitcoin with
       | some (_, p) => Hash.toHexW p.scriptPubkey
       | none => "ERR")
+  | "C", "build", [d] => do
+    let d ← parseDesc d
+    pure (if buildAccepts t d then "OK" else "ERR")
+  | "J", "buildexpect", [_d, want, got] =>
+    some (if (want == "accept" && got == "OK") || (want == "reject" && got == "ERR") then "ok"
+          else "bad:" ++ want ++ "-but-" ++ got)
   | "C", "addrstr", [d, net] => do
     let d ← parseDesc d; let net ← parseNet net
     pure (if isTr d then "TR" else (d.addressString P net).getD "ERR")
